@@ -553,6 +553,34 @@ class DbLeg(object):
         if clash:
             return Failure("merge() after merge_all() on the same handle hands out ids that are already stored: %r" % clash,
                            sig={"kind": "ids-after-merge_all"})
+        # passes that are not consumed to the end (abandoned after k outputs, or two generators consumed in turns) still
+        # use up the ids they handed out: a later pass on the same handle does not hand them out again
+        ordered = sorted(specs, key=lambda s: (s["seqid"], s["ft"], s["strand"], s["start"]))
+        handed = [o.id for o in later]
+        g1, g2 = db.merge(make_features(ordered)), db.merge(make_features(ordered))
+        live = [g1, g2]
+        taken = 0
+        while live and taken < 3:
+            for g in list(live):
+                try:
+                    o = next(g)
+                except StopIteration:
+                    live.remove(g)
+                    continue
+                if getattr(o, "children", None):
+                    handed.append(o.id)
+                    taken += 1
+        abandoned = bool(live)
+        del g1, g2, live
+        handed.extend(o.id for o in db.merge(make_features(ordered)) if getattr(o, "children", None))
+        if len(set(handed)) != len(handed):
+            return Failure("merge() passes on one handle (two consumed in turns%s, then a complete one) handed out an id twice: %r"
+                           % (" and abandoned" if abandoned else "", handed), sig={"kind": "ids-across-passes"})
+        if [i for i in handed if i in stored_ids]:
+            return Failure("merge() hands out ids that are already stored: %r" % [i for i in handed if i in stored_ids],
+                           sig={"kind": "ids-after-merge_all"})
+        if abandoned and taken >= 1:
+            ctx.count("merge() passes abandoned after >= 1 merged output, followed by another pass")
         return None
 
 
